@@ -54,17 +54,17 @@ _GRID_ENV["UBSAN_OPTIONS"] = "print_stacktrace=0:halt_on_error=0"
 UNITS_LOCAL = {"C07": [
     Unit("sweep_simd", ["harness/C07_sweep.cpp"],
          flags=["-ffp-contract=off"], opt="-O2", engine="gridmc",
-         budget={"quick": 300, "thorough": 900},
+         budget={"quick": 600, "thorough": 1200},
          rule="default (SSE) build: " + _SWEEP_RULE, assumptions=_SWEEP_ASSUME),
     Unit("sweep_nosimd", ["harness/C07_sweep.cpp"],
          flags=["-ffp-contract=off"], defs=["RKCOMMON_NO_SIMD"], opt="-O2", engine="gridmc",
          # the seed / colour-index sweeps do not depend on RKCOMMON_NO_SIMD: quick runs them in the default build only
          args={"quick": ["--parts", "1"], "thorough": [], "replay": []},
-         budget={"quick": 300, "thorough": 900},
+         budget={"quick": 600, "thorough": 1200},
          rule="-DRKCOMMON_NO_SIMD build (quick: the float sweep only; thorough: also the seed and index sweeps): " + _SWEEP_RULE,
          assumptions=_SWEEP_ASSUME),
     Unit("grid", ["harness/C07_grid.cpp"],
          flags=_GRID_FLAGS, env=_GRID_ENV, opt="-O1", engine="gridmc",
-         budget={"quick": 300, "thorough": 900},
+         budget={"quick": 600, "thorough": 1200},
          rule=_GRID_RULE, assumptions=_GRID_ASSUME),
 ]}
